@@ -327,3 +327,7 @@ func (a Z) Int() math.Int { return math.NewIntFromBigInt(a.b()) }
 func (a Z) Dec() math.LegacyDec {
 	return math.LegacyNewDecFromBigIntWithPrec(a.b(), 18)
 }
+
+// EventMark / SameEvents exist for the symbolic environment only; natively env compares the real event managers.
+func EventMark() int                      { panic("nd.EventMark: symbolic environment only") }
+func SameEvents(a0, a1, b0, b1 int) bool { panic("nd.SameEvents: symbolic environment only") }
